@@ -40,7 +40,8 @@ From Coq Require Import ZArith List Bool Lia.
 From CSS Require Import Forest.Spec Spec.Eval Gen.Prelude Gen.ProductShifts.
 From CSS Require Import Count.Series Count.SeriesConv Count.Equations Count.EquationsProofs
   Count.EquationsRules Count.EquationsEquiv Count.SeriesUnique Count.SeriesUniqueRefuted
-  Count.SeriesClosedForm Count.GenfSelect Count.GenfSelectProofs.
+  Count.SeriesClosedForm Count.GenfSelect Count.GenfSelectProofs
+  Count.SeriesCriterion Count.SeriesCriterionProofs.
 Import ListNotations.
 Open Scope Z_scope.
 
@@ -281,6 +282,70 @@ Theorem C20_genf_selected_closed_form : forall (uspec : nat -> option urule) (ke
   (forall c r, uspec c = Some r -> satisfies (family b) c r) ->
   forall c, pumps keys c -> forall n, 0 <= n -> family b c n = W c n.
 Proof. intros. eapply genf_selected_closed_form; eauto. Qed.
+
+(* ------------------------------------------------------------ 2c'. the criterion DECIDED on a real specification *)
+(* us = the finite descriptor of a univariate specification (one (class, urule) per rule; harness
+   props/c20.py uspec_of builds it from the rules_dict of EVERY get_genf case: product factors with
+   minimum_size_of_object()), ks = the keys the LIBRARY declares (rule.shifts()).  crit_okb
+   (Count/SeriesCriterion.v, evaluated inside run_c20 on that descriptor and compared with the harness's
+   own verdict) is the conjunction of: one rule per class; every declared key = the key of its class's
+   rule with the REGENERATED shifts (product: Gen/ProductShifts.v); urule_wf of every rule; declared
+   minimum sizes non-negative and a function of the class; the root pumps w.r.t. the declared keys
+   (pumpsb: the PROVED table-method decision, C03_total_sound_complete).  A true verdict gives the
+   decidable hypotheses of C20_closed_form_criterion for uspec_of us: *)
+Theorem C20_criterion_decided : forall (us : list (nat * urule)) (ks : list fkey) (root : nat),
+  crit_okb us ks root = true ->
+  (forall k, In k ks -> exists r, uspec_of us (parent k) = Some r /\ kids k = r_kids Z (to_srule r)) /\
+  (forall c r, uspec_of us c = Some r -> urule_wf c r) /\
+  pumps ks root /\
+  (forall c r, In (c, r) us <-> uspec_of us c = Some r) /\
+  (forall c kids, uspec_of us c = Some (UProduct kids) ->
+     forall k, In k kids -> 0 <= snd k /\ snd k = dmin_of us (fst k)) /\
+  (forall c, 0 <= dmin_of us c).
+Proof. intros us ks root H. exact (crit_okb_sound us ks root H). Qed.
+
+(* The criterion with those hypotheses replaced by the verdict.  What REMAINS per instance: every rule
+   genuine for the true counts W (evaluated in-run to size M by genuine_ub: an oracle fact, not a proof),
+   W and G zero below dmin_of us (0 for a class that is no factor: "nothing at negative sizes"), and G --
+   the Taylor coefficients of the solved functions of ALL classes -- satisfies every emitted equation at
+   every order (sympy's identity check: trusted).  W = the specification's counts is C01's conclusion. *)
+Theorem C20_closed_form_criterion_decided : forall (us : list (nat * urule)) (ks : list fkey) (root : nat),
+  crit_okb us ks root = true ->
+  forall W G : nat -> Z -> Z,
+  (forall c r, In (c, r) us -> genuine_u W c r) ->
+  (forall c m, m < dmin_of us c -> W c m = 0) ->
+  (forall c m, m < dmin_of us c -> G c m = 0) ->
+  (forall c r, In (c, r) us -> satisfies G c r) ->
+  forall n, 0 <= n -> G root n = W root n.
+Proof. intros. eapply closed_form_criterion_decided; eauto. Qed.
+
+(* the same for the function get_genf SELECTS: sel_okb us classes check decides that every factor of a
+   product is among the compared classes and its minimum within the compared terms *)
+Theorem C20_genf_selected_closed_form_decided :
+  forall (us : list (nat * urule)) (ks : list fkey) (root : nat) check groot classes (W : nat -> Z -> Z) bs b,
+  crit_okb us ks root = true ->
+  sel_okb us classes check = true ->
+  genf_select check groot classes W bs = Some b ->
+  (forall c r, In (c, r) us -> genuine_u W c r) ->
+  (forall c m, m < dmin_of us c -> W c m = 0) ->
+  (forall c m, m < 0 -> family b c m = 0) ->
+  (forall c r, In (c, r) us -> satisfies (family b) c r) ->
+  forall n, 0 <= n -> family b root n = W root n.
+Proof. intros. eapply genf_selected_closed_form_decided; eauto. Qed.
+
+(* what the in-run table checks of run_c20 mean (sizes 0..M only) *)
+Theorem C20_table_checks_decided : forall (W : nat -> Z -> Z) M (us : list (nat * urule)) c r,
+  (genuine_ub W M c r = true <-> genuine_u_upto W M c r) /\
+  (genuine_u W c r -> genuine_ub W M c r = true) /\
+  (recur_okb W M c r = true <->
+     forall n, 0 <= n <= M ->
+       r_op Z (to_srule r) (fun i m => W (kid Z (to_srule r) i) m) (W c) n = W c n) /\
+  (low_okb W M us = true <->
+     forall k, In k (decls us) -> forall m, 0 <= m <= M -> m < snd k -> W (fst k) m = 0).
+Proof.
+  intros. split; [apply genuine_ub_spec|]. split; [|split; [apply recur_okb_spec|apply low_okb_spec]].
+  intros G. apply genuine_ub_spec, genuine_u_upto_of, G.
+Qed.
 
 (* ------------------------------------------------------------ 2d. OPEN: the literal equation of a reverse rule *)
 (* What fix FIXHASH_EQ leaves of the unmapped-child-parameter defect (open finding
@@ -1133,6 +1198,48 @@ Proof.
   apply (C20_closed_form_criterion ex_spec ex_keys K W lw G l_genuine_u l_neg l_low G1 G2 G3 0%nat P 5). lia.
 Qed.
 
+(* covers C20_criterion_decided / C20_closed_form_criterion_decided / C20_genf_selected_closed_form_decided /
+   C20_table_checks_decided on ex_spec (L = 1 + x*L) given as a descriptor: the verdict is computed, the
+   hypotheses follow; a key with a wrong shift, a negative atom and a root that does not pump are refused *)
+Definition ex_us : list (nat * urule) :=
+  [(0%nat, UUnion [1%nat; 2%nat]); (1%nat, UAtom 0); (2%nat, UProduct [(3%nat, 1); (0%nat, 0)]); (3%nat, UAtom 1)].
+Lemma ex_us_spec c : uspec_of ex_us c = ex_spec c.
+Proof. destruct c as [|[|[|[|c]]]]; reflexivity. Qed.
+Example C20_criterion_decided_nonvacuous : crit_okb ex_us ex_keys 0%nat = true.
+Proof. vm_compute. reflexivity. Qed.
+Example C20_criterion_decided_discriminates :
+  crit_parts ex_us [mkkey 0 [(1%nat, 0); (2%nat, 0)]; mkkey 1 []; mkkey 2 [(3%nat, 0); (0%nat, 0)]; mkkey 3 []] 0%nat
+    = [true; false; true; true; false] /\
+  crit_parts [(0%nat, UUnion [0%nat; 1%nat]); (1%nat, UAtom (-1)); (0%nat, UEmpty)]
+             [mkkey 0 [(0%nat, 0); (1%nat, 0)]; mkkey 1 []] 0%nat
+    = [false; true; false; true; false] /\
+  crit_parts [(0%nat, UProduct [(1%nat, 1); (1%nat, 2)]); (1%nat, UAtom 1)] [mkkey 0 [(1%nat, 2); (1%nat, 1)]; mkkey 1 []] 0%nat
+    = [true; true; true; false; true].
+Proof. vm_compute. repeat split. Qed.
+Example C20_closed_form_criterion_decided_nonvacuous :
+  forall G : nat -> Z -> Z,
+  (forall c m, m < dmin_of ex_us c -> G c m = 0) ->
+  (forall c r, In (c, r) ex_us -> satisfies G c r) ->
+  G 0%nat 5 = 1.
+Proof.
+  intros G G1 G2.
+  apply (C20_closed_form_criterion_decided ex_us ex_keys 0%nat C20_criterion_decided_nonvacuous lw G); auto; try lia.
+  - intros c r H. apply l_genuine_u. rewrite <- ex_us_spec.
+    apply (proj1 (proj1 (proj2 (proj2 (proj2 (C20_criterion_decided _ _ _ C20_criterion_decided_nonvacuous)))) c r) H).
+  - intros c m Hm. destruct c as [|[|[|[|c]]]]; vm_compute in Hm.
+    + apply l_neg; destruct m; try discriminate; lia.
+    + apply l_neg; destruct m; try discriminate; lia.
+    + apply l_neg; destruct m; try discriminate; lia.
+    + assert (m < 1) as Hm' by (destruct m as [|p|p]; try lia; destruct p; discriminate).
+      apply (l_low 2%nat [(3%nat, 1); (0%nat, 0)] eq_refl (3%nat, 1) m); [left; reflexivity|exact Hm'].
+    + apply l_neg; destruct m; try discriminate; lia.
+Qed.
+Example C20_table_checks_nonvacuous :
+  forallb (fun cr => genuine_ub lw 8 (fst cr) (snd cr) && recur_okb lw 8 (fst cr) (snd cr)) ex_us = true /\
+  low_okb lw 8 ex_us = true /\ sel_okb ex_us [0%nat; 1%nat; 2%nat; 3%nat] 6 = true /\
+  genuine_ub lw 8 2%nat (UProduct [(3%nat, 1); (3%nat, 1)]) = false /\ sel_okb ex_us [0%nat; 1%nat; 2%nat] 6 = false.
+Proof. vm_compute. repeat split. Qed.
+
 (* covers C20_genf_selection and C20_genf_selected_closed_form on ex_spec (L = 1 + x*L): the solver's list holds
    a wrong solution (class 0 given the series of the atom) and the right one; the repaired selection skips
    the first, returns the second, and with the identity check (l_solution) the conclusion holds at every order *)
@@ -1202,3 +1309,7 @@ Print Assumptions C20_genf_selection_before_fix_refuted.
 Print Assumptions C20_reverse_equation_unmapped_refuted.
 Print Assumptions C20_reverse_union_guarded_satisfied.
 Print Assumptions C20_reverse_product_guarded_satisfied.
+Print Assumptions C20_criterion_decided.
+Print Assumptions C20_closed_form_criterion_decided.
+Print Assumptions C20_genf_selected_closed_form_decided.
+Print Assumptions C20_table_checks_decided.
